@@ -5,16 +5,19 @@ refactoring of the orchestrator can make those units UNDECIDED. This file adds t
 runs on small real projects, so that a behavioural deviation is reported as a VIOLATION with a replayable witness:
   (1) directory run == concatenation of per-file runs over the collected files (per-file rules), for every directory
       target of the tree -- including targets whose own name is an always-excluded name;
-  (2) library API == CLI plumbing (setup_base_orchestrator + execute_linting_on_paths) for directory targets (all
-      rules) and for single files (per-file rules; cross-file rules differ by the known finding
-      C10-api-single-file-no-finalize);
+  (2) library API == CLI plumbing (setup_base_orchestrator + execute_linting_on_paths) for directory targets and for
+      single files, all rules (DRY is switched on with intra-file duplicates in every file);
   (3) the same with an explicit config file next to an auto-discovered root config (the explicit file wins entirely
       in both entry points)."""
 from pyvc.api import custom
 
 _DIRS = ["src", "pkg", "build", "dist", "gen", ".venv", "node_modules", "lib"]
 _FILES = ["a.py", "b.py", "c.py", "build", "d.pyc"]
-_BODY = ("def planted(x, y):\n    if x:\n        if y:\n            if x > y:\n                return 3.14159 * 4242\n    return 0\n")
+_BLOCK = ("    total = 0\n    for item in items:\n        if item.value > threshold:\n            if item.value > factor:\n"
+          "                total += item.value * 3.14159\n        else:\n            total -= item.value / 4242\n"
+          "    result = transform(total, mode=\"fast\")\n    return finalize_result(result, items)\n")
+# two functions with the same body: every file carries nesting / magic-number findings AND an intra-file duplicate
+_BODY = "def planted(items, threshold, factor):\n" + _BLOCK + "\n\ndef planted_again(items, threshold, factor):\n" + _BLOCK
 
 
 def _tree(rng, depth):
@@ -97,7 +100,8 @@ def entrypoints_bounded(ctx):
             root.mkdir()
             t = _tree(rng, 2)
             _write(str(root), t)
-            (root / ".thailint.yaml").write_text("nesting:\n  max_nesting_depth: 2\n", encoding="utf-8")
+            (root / ".thailint.yaml").write_text("nesting:\n  max_nesting_depth: 2\ndry:\n  enabled: true\n  min_duplicate_lines: 3\n",
+                                                encoding="utf-8")
             clear_ignore_parser_cache()
             for parts in _dirs_of(t):
                 d = root.joinpath(*parts)
@@ -121,14 +125,14 @@ def entrypoints_bounded(ctx):
                     return _refuted(name, cases, "Linter.lint(directory) differs from the CLI plumbing",
                                     {"tree": t, "target": "/".join(parts) or ".", "api_only": sorted(map(str, (api - cli).keys())),
                                      "cli_only": sorted(map(str, (cli - api).keys()))})
-            # (2') single files, per-file rules
+            # (2') single files, all rules (cross-file rules included: both entry points finalize)
             for f in _collect_files_fast(root, True)[:3]:
-                api = _key(Linter(project_root=str(root)).lint(f), str(root), True)
+                api = _key(Linter(project_root=str(root)).lint(f), str(root), False)
                 orch = setup_base_orchestrator([f], None, False, project_root=root)
-                cli = _key(execute_linting_on_paths(orch, [f], True), str(root), True)
+                cli = _key(execute_linting_on_paths(orch, [f], True), str(root), False)
                 cases += 1
                 if api != cli:
-                    return _refuted(name, cases, "Linter.lint(file) differs from the CLI plumbing (per-file rules)",
+                    return _refuted(name, cases, "Linter.lint(file) differs from the CLI plumbing",
                                     {"tree": t, "file": os.path.relpath(str(f), str(root)), "api_only": sorted(map(str, (api - cli).keys())),
                                      "cli_only": sorted(map(str, (cli - api).keys()))})
             # (3) explicit config file next to an auto-discovered root config: the explicit file is THE configuration
